@@ -27,16 +27,28 @@ fn prefilled<const N: usize>() -> Vec<u8, N> {
 fn post<const N: usize, const M: usize>(buffer: &Vec<u8, N>, body: &SpecBuf<M>) {
     let empty_map = body.len == 1 && body.buf[0] == 0xA0;
     if body.len == 0 || empty_map {
-        assert!(buffer.len() == 1 && buffer[0] == 0x00, "C02/C17: a response without members is the status byte alone");
+        assert!(
+            buffer.len() == 1 && buffer[0] == 0x00,
+            "C02/C17: a response without members is the status byte alone"
+        );
     } else if 1 + body.len <= N {
-        assert!(buffer.len() == 1 + body.len, "C17: complete message expected (length)");
+        assert!(
+            buffer.len() == 1 + body.len,
+            "C17: complete message expected (length)"
+        );
         assert!(buffer[0] == 0x00, "C02: success status byte");
         let k: usize = kani::any();
         kani::assume(k < body.len);
-        assert!(buffer[1 + k] == body.buf[k], "C02/C17: body differs from the specification encoding");
+        assert!(
+            buffer[1 + k] == body.buf[k],
+            "C02/C17: body differs from the specification encoding"
+        );
     } else {
         assert!(buffer.len() == 1, "C17: truncated body emitted");
-        assert!(buffer[0] == 0x7F, "C17: status of a response that does not fit must be 0x7F");
+        assert!(
+            buffer[0] == 0x7F,
+            "C17: status of a response that does not fit must be 0x7F"
+        );
     }
 }
 
@@ -113,22 +125,36 @@ pub fn c17_k_client_pin_n16() {
 pub fn c17_k_parameterless() {
     let mut b1 = prefilled::<1>();
     Response::Reset.serialize(&mut b1);
-    assert!(b1.len() == 1 && b1[0] == 0, "C02: Reset response must be [00]");
+    assert!(
+        b1.len() == 1 && b1[0] == 0,
+        "C02: Reset response must be [00]"
+    );
     let mut b2 = prefilled::<1>();
     Response::Selection.serialize(&mut b2);
-    assert!(b2.len() == 1 && b2[0] == 0, "C02: Selection response must be [00]");
+    assert!(
+        b2.len() == 1 && b2[0] == 0,
+        "C02: Selection response must be [00]"
+    );
     let mut b3 = prefilled::<1>();
     Response::Vendor.serialize(&mut b3);
-    assert!(b3.len() == 1 && b3[0] == 0, "C02: Vendor response must be [00]");
+    assert!(
+        b3.len() == 1 && b3[0] == 0,
+        "C02: Vendor response must be [00]"
+    );
     let mut b16 = prefilled::<16>();
     Response::Reset.serialize(&mut b16);
-    assert!(b16.len() == 1 && b16[0] == 0, "C02: parameter-less response must be [00]");
+    assert!(
+        b16.len() == 1 && b16[0] == 0,
+        "C02: parameter-less response must be [00]"
+    );
 }
 
 /// LargeBlobs: no member => [00]; config = empty byte string => 00 A1 01 40 (or 7F when N < 4)
 fn large_blobs_case<const N: usize>() {
     let present: bool = kani::any();
-    let resp = Response::LargeBlobs(large_blobs::Response { config: if present { Some(Bytes::new()) } else { None } });
+    let resp = Response::LargeBlobs(large_blobs::Response {
+        config: if present { Some(Bytes::new()) } else { None },
+    });
     let mut buffer = prefilled::<N>();
     resp.serialize(&mut buffer);
     let mut body = SpecBuf::<4>::new();
